@@ -237,7 +237,7 @@ PROPS = {
   'assumptions': ['finish() may succeed once after the last frame (documented way to read trailing metadata)'],
  },
  'C12': {
-  'level_text': 'Coq theorem (closed under the global context): for EVERY configuration (still or animated with any frame count, default image in/out of the animation, PLTE, ancillary chunks) and a history supplying exactly the '
+  'level_text': 'Coq theorems (closed under the global context). Frame rectangles (Model/FrameRect.v): for every sequence of frame setters and images on an animated encoder every fcTL written carries a non-empty rectangle inside the canvas and the first one is the canvas; with_info accepts a frame control iff it is the canvas rectangle. Chunk order: for EVERY configuration (still or animated with any frame count, default image in/out of the animation, PLTE, ancillary chunks) and a history supplying exactly the '
                 'declared images, each as any positive number of data chunks, the chunk-kind sequence emitted by the Writer model is accepted by the strict ordering validator (IHDR first, acTL before IDAT, one fcTL per frame, IDAT '
                 'only for the first image, fdAT afterwards, sequence numbers 0.. without gaps, frame count = acTL, IEND last and once) - by a simulation invariant between writer and validator, not by enumeration. Bytes (lengths, '
                 'CRCs, zlib streams ending exactly, inflated sizes, filter bytes) are validated on every run by an independent strict validator; known finding: StreamWriter on an animated encoder.',
